@@ -63,6 +63,10 @@ def handle (hdr : List String) (body : List (List String)) : List String :=
       let c13a := if sp != 0 && impl.any (fun e => e.ref.num > sp) then ["monitor C13 FAIL event-delivered-above-the-stop-block"] else []
       let c13b := if impl.all (fun e => passesFilter cfg e.step) then [] else ["monitor C13 FAIL event-that-the-step-filter-must-remove-was-delivered"]
       let c13c := if send == "panic" || send == "hang" then ["monitor C13 FAIL stream-crash-or-hang"] else []
+      -- a stream that reaches its stop block ends with *the* stop-block-reached error (the value callers compare with),
+      -- whether the end comes from the stop handler or from the file source's end-of-range marker
+      let c13f := if model.getLast? == some "model send stop" && send.startsWith "other:" then
+          [s!"monitor C13 FAIL stream-reached-its-stop-block-but-ended-with-another-error ({send})"] else []
       -- the stop block itself is delivered when it exists: when the run ends with stop-block-reached and the chain the
       -- hub ends up on (ancestry of its single highest block) has a block at height S, an event for height S was delivered
       let maxNum := (pushes.map (·.blk.num)).foldl max 0
@@ -170,7 +174,7 @@ def handle (hdr : List String) (body : List (List String)) : List String :=
             if stalled != [] then stalled else
             if held.length == (held.foldl (fun (l : List Id) i => if l.contains i then l else l ++ [i]) []).length then []
             else ["monitor C07 FAIL a-block-is-held-twice-after-the-handoff"]
-      model ++ (c13c ++ c13a ++ c13b ++ c13d ++ c13e).take 1 ++ c07.take 1 ++ c11
+      model ++ (c13c ++ c13a ++ c13b ++ c13d ++ c13e ++ c13f).take 1 ++ c07.take 1 ++ c11
     | _, _, _, _, _ => ["model bad-case"]
   | _ => ["model bad-case"]
 
